@@ -1422,7 +1422,7 @@ pub fn check(tier: &str, seed: u64) -> i32 {
         harness_error("seam self-test failed");
     }
     let thorough = tier == "thorough";
-    let total = if thorough { 40_000 } else { 2_400 };
+    let total = if thorough { 160_000 } else { 8_000 };
     let mut r = Prng::new(seed ^ 0xC15C15);
     let learners = [Learner::Gnb, Learner::Mnb, Learner::KMeans, Learner::Ftrl];
     let cases: Vec<Case> = (0..total).map(|i| gen_case(&mut r, learners[i % 4], thorough && i % 5 == 0)).collect();
